@@ -417,6 +417,9 @@ func (dec *Decoder) ExpectAString(ptr *string) bool {
 	if dec.Literal(ptr) {
 		return true
 	}
+	if dec.err != nil {
+		return false // e.g. the literal has been refused
+	}
 	// TODO: accept unquoted resp-specials
 	return dec.ExpectAtom(ptr)
 }
